@@ -47,6 +47,10 @@ type deqRec struct {
 //
 //	c08-dq-stress <seed> <capacity> <producers> <consumers> <perProducer> [maxDelayMs] [tolMs] [cancelPct]
 func stressMain(args []string) {
+	if len(args) > 0 && args[0] == "wake" {
+		wakeScenario(args[1:])
+		return
+	}
 	geti := func(i, def int) int {
 		if len(args) > i {
 			if v, err := strconv.Atoi(args[i]); err == nil {
@@ -282,4 +286,114 @@ func stressMain(args []string) {
 		return
 	}
 	fmt.Printf("ok accepted=%d returned=%d highlen=%d noise=%v tol=%v\n", accepted.Load(), returned.Load(), highLen.Load(), time.Duration(noise.Load()), tol)
+}
+
+// wakeScenario is the directed C09 scenario "a newly enqueued element that expires before the one
+// being waited for wakes a blocked Dequeue" in REAL time:
+//
+//	c08-dq-stress wake <seed> <consumers> [rounds]
+//
+// Each round: fresh unbounded queue holding a head that expires in 25 s; <consumers> goroutines block
+// in Dequeue (context: 5 s); after a settling pause one element is enqueued that is (a) due in 5-15 ms
+// or (b) already expired; it must be returned by one of the blocked consumers within 2 s after
+// max(enqueue, expiry) - bounds are in seconds, the unchanged code needs microseconds.  Otherwise
+// "VIOLATION late-wakeup: ..." with the measured delay (goroutine dump on stderr).  Replay = the
+// command line.
+func wakeScenario(args []string) {
+	geti := func(i, def int) int {
+		if len(args) > i {
+			if v, err := strconv.Atoi(args[i]); err == nil {
+				return v
+			}
+		}
+		return def
+	}
+	seed := int64(geti(0, 1))
+	consumers := geti(1, 1)
+	rounds := geti(2, 2)
+	const bound = 2 * time.Second
+	verifhook.SetMode(verifhook.Chaos)
+	r := rand.New(rand.NewSource(seed*31 + int64(consumers)))
+	type res struct {
+		v   elem
+		err error
+		at  time.Time
+	}
+	for round := 0; round < rounds; round++ {
+		for _, kind := range []string{"soon", "expired"} {
+			q := queue.NewDelayQueue[elem](0)
+			far := elem{id: 1, deadline: time.Now().Add(25 * time.Second)}
+			if err := q.Enqueue(context.Background(), far); err != nil {
+				fmt.Printf("VIOLATION crash: Enqueue of the far head failed: %v\n", err)
+				return
+			}
+			ctx, cancel := context.WithTimeout(context.Background(), 5*time.Second)
+			out := make(chan res, consumers)
+			for i := 0; i < consumers; i++ {
+				go func() {
+					v, err := q.Dequeue(ctx)
+					out <- res{v, err, time.Now()}
+				}()
+			}
+			time.Sleep(time.Duration(60+r.Intn(60)) * time.Millisecond) // let them block on the far head's timer
+			var d time.Duration
+			if kind == "soon" {
+				d = time.Duration(5+r.Intn(11)) * time.Millisecond
+			} else {
+				d = -time.Duration(1+r.Intn(20)) * time.Millisecond
+			}
+			x := elem{id: 2, deadline: time.Now().Add(d)}
+			if err := q.Enqueue(context.Background(), x); err != nil {
+				fmt.Printf("VIOLATION crash: Enqueue failed: %v\n", err)
+				cancel()
+				return
+			}
+			enqAt := time.Now()
+			due := x.deadline
+			if enqAt.After(due) {
+				due = enqAt
+			}
+			fail := func(msg string) {
+				buf := make([]byte, 1<<20)
+				n := runtime.Stack(buf, true)
+				fmt.Printf("VIOLATION late-wakeup: scenario wake/%s seed=%d consumers=%d round=%d: %s\n", kind, seed, consumers, round, msg)
+				fmt.Fprintf(os.Stderr, "%s\n", buf[:n])
+				cancel()
+			}
+			select {
+			case got := <-out:
+				lat := got.at.Sub(due)
+				switch {
+				case got.err != nil:
+					fail(fmt.Sprintf("a blocked Dequeue returned %v %v after the new element (%s, delay %v) could be delivered", got.err, lat.Round(time.Millisecond), kind, d))
+					return
+				case got.v.id != 2:
+					fmt.Printf("VIOLATION early: scenario wake/%s: the far head (25 s) was returned instead of the new element\n", kind)
+					cancel()
+					return
+				case got.v.Delay() > 0 && got.at.Before(x.deadline):
+					fmt.Printf("VIOLATION early: scenario wake/%s: element returned %v before its expiry\n", kind, x.deadline.Sub(got.at))
+					cancel()
+					return
+				case lat > bound:
+					fail(fmt.Sprintf("the new element (%s, delay %v) was delivered %v after it could be", kind, d, lat.Round(time.Millisecond)))
+					return
+				}
+			case <-time.After(time.Until(due) + bound):
+				fail(fmt.Sprintf("the new element (%s, delay %v) is not delivered %v after it could be: %d Dequeue(s) still blocked on the timer of the 25 s head (Len=%d)",
+					kind, d, bound, consumers, q.VerifLen()))
+				return
+			}
+			cancel() // the remaining consumers return ctx.Err()
+			for i := 1; i < consumers; i++ {
+				select {
+				case <-out:
+				case <-time.After(10 * time.Second):
+					fail("a cancelled Dequeue did not return within 10 s")
+					return
+				}
+			}
+		}
+	}
+	fmt.Printf("ok scenario=wake consumers=%d rounds=%d\n", consumers, rounds)
 }
